@@ -87,6 +87,9 @@ enum AwaitForm {
     /// `! [p, ms]`: the await has priority, the timeout usually fires first
     SmallTimeoutAfter(u64),
     WithReceive,
+    /// `! [p, #'int { N slow, VERDICT }]` with an int sent before the target ends: the target's completion
+    /// or failure lands while the receive function is in flight (or just before / after)
+    BeforeFilter { slow: u32, accept: bool },
 }
 
 #[derive(Clone, Debug, PartialEq, Eq, Hash, Serialize, Deserialize)]
@@ -168,6 +171,9 @@ impl Scenario {
                         AwaitForm::SmallTimeoutFirst(ms) => format!("! [{ms}, p{target}]"),
                         AwaitForm::SmallTimeoutAfter(ms) => format!("! [p{target}, {ms}]"),
                         AwaitForm::WithReceive => format!("! [#'bin, p{target}]"),
+                        AwaitForm::BeforeFilter { slow, accept } => {
+                            format!("! [p{target}, #'int {{ {slow} slow, {} }}]", if *accept { "Ok" } else { "[]" })
+                        }
                     };
                     format!("{pre}{sel}")
                 }
@@ -225,6 +231,9 @@ impl Scenario {
                     if let AwaitForm::SmallTimeoutFirst(_) | AwaitForm::SmallTimeoutAfter(_) = form {
                         s.insert("ok:nil".to_string());
                     }
+                    if let AwaitForm::BeforeFilter { accept: true, .. } = form {
+                        s.insert("ok:77".to_string());
+                    }
                 }
                 Role::Const { v, .. } => {
                     s.insert(format!("ok:{v}"));
@@ -260,6 +269,9 @@ impl Scenario {
                 let mut s = out[*target].clone();
                 if let AwaitForm::SmallTimeoutFirst(_) | AwaitForm::SmallTimeoutAfter(_) = form {
                     s.insert("ok:nil".to_string());
+                }
+                if let AwaitForm::BeforeFilter { accept: true, .. } = form {
+                    s.insert("ok:77".to_string());
                 }
                 out[i] = s;
             }
@@ -302,7 +314,8 @@ fn gen_scenario(r: &mut Rng) -> Scenario {
             Role::Fail { kind, trigger }
         } else if k < 62 {
             let target = r.usize(i);
-            let form = match r.below(10) {
+            let form = match r.below(13) {
+                10..=12 => AwaitForm::BeforeFilter { slow: *r.pick(&[5u32, 30, 150, 500]), accept: r.chance(1, 4) },
                 0..=4 => AwaitForm::Single,
                 5 => AwaitForm::BigTimeoutAfter,
                 6 => AwaitForm::BigTimeoutBefore,
@@ -353,10 +366,30 @@ fn gen_scenario(r: &mut Rng) -> Scenario {
                     script.push(Act { sleep: None, spin: 0, kind: ActKind::Int(i, r.range(1, 50)) });
                 }
             }
+            Role::Await { form: AwaitForm::BeforeFilter { .. }, .. } => {
+                script.push(Act { sleep: None, spin: 0, kind: ActKind::Int(i, 77) });
+            }
             _ => {}
         }
     }
     r.shuffle(&mut script);
+    // the int for a `[p, filter]` awaiter goes out first (and the awaiter's own Go, if it is a late one), so
+    // that the filter is usually in flight when the Go of the failing process is sent
+    let mut front: Vec<Act> = vec![];
+    let mut rest: Vec<Act> = vec![];
+    for a in script.drain(..) {
+        let is_filter_int = matches!(&a.kind, ActKind::Int(i, 77) if matches!(&sc.procs[*i], Role::Await { form: AwaitForm::BeforeFilter { .. }, .. }));
+        let is_their_go = matches!(&a.kind, ActKind::Go(i) if matches!(&sc.procs[*i], Role::Await { form: AwaitForm::BeforeFilter { .. }, late: true, .. }));
+        if is_their_go {
+            front.insert(0, a);
+        } else if is_filter_int {
+            front.push(a);
+        } else {
+            rest.push(a);
+        }
+    }
+    script = front;
+    script.extend(rest);
     for a in script.iter_mut() {
         if r.chance(1, 4) {
             a.sleep = Some(*r.pick(&[1u64, 2, 5, 12]));
@@ -1070,7 +1103,7 @@ fn main() {
         }
     }
     let n_corpus = cases.len();
-    let n_scen = opts.tier.pick(110u64, 1300);
+    let n_scen = opts.tier.pick(95u64, 1300);
     let n_sched = opts.tier.pick(4u64, 10);
     for i in 0..n_scen {
         let mut r = Rng::for_case(opts.seed ^ 0xC15, i);
@@ -1110,7 +1143,7 @@ fn main() {
         for r in &case.scenario.procs {
             ev.hit(&match r {
                 Role::Fail { kind, trigger } => format!("role:fail:{kind:?}:{}", match trigger { Trigger::Now => "now", Trigger::Countdown(_) => "countdown", Trigger::Go => "go" }),
-                Role::Await { form, late, .. } => format!("role:await:{}:{}", match form { AwaitForm::Single => "single", AwaitForm::BigTimeoutAfter => "timeout-after", AwaitForm::BigTimeoutBefore => "timeout-before", AwaitForm::SmallTimeoutFirst(_) => "small-timeout-first", AwaitForm::SmallTimeoutAfter(_) => "small-timeout-after", AwaitForm::WithReceive => "with-receive" }, if *late { "late" } else { "early" }),
+                Role::Await { form, late, .. } => format!("role:await:{}:{}", match form { AwaitForm::Single => "single", AwaitForm::BigTimeoutAfter => "timeout-after", AwaitForm::BigTimeoutBefore => "timeout-before", AwaitForm::SmallTimeoutFirst(_) => "small-timeout-first", AwaitForm::SmallTimeoutAfter(_) => "small-timeout-after", AwaitForm::BeforeFilter { accept, .. } => if *accept { "before-accepting-filter" } else { "before-rejecting-filter" }, AwaitForm::WithReceive => "with-receive" }, if *late { "late" } else { "early" }),
                 Role::Const { .. } => "role:const".to_string(),
                 Role::Recv { .. } => "role:recv".to_string(),
                 Role::Sender { .. } => "role:sender".to_string(),
